@@ -212,8 +212,18 @@ def install(R):
     def log_task(eng, fr, fnv, argsV, kwV, node, what):
         st = fr.st
         g = st.ghost
+        c_ = fr.contract
+        if c_ is not None and c_.fn_params and "__check_callee__" in S:
+            for spec_ in c_.fn_params.values():
+                S["__check_callee__"](eng, fr, spec_, fnv, node)
         n = g["calls_n"].t
         g["calls_kw"] = SV("z3", z3.Store(g["calls_kw"].t, n, kwV))
+        if "calls_fn" in g:
+            try:
+                fV = eng.as_V(fnv)
+            except Exception:
+                fV = z3.Const(fresh_name("callable"), V)       # a callable that is not a first-class value of the model
+            g["calls_fn"] = SV("z3", z3.Store(g["calls_fn"].t, n, fV))
         g["calls_n"] = SV("z3", n + 1)
         fut = z3.Const(fresh_name("future"), V)
         st.assume(fut_index(fut) == n)
